@@ -512,7 +512,8 @@ pub fn run_faults(args: &Args, mut out: Out) {
 // ------------------------------------------------------------------------------ status
 /// The status-named constructors found in servlin's source (pattern `pub fn \w+_\d{3}(`).
 fn source_ctors() -> Vec<String> {
-    let src = std::fs::read_to_string("/repo/src/response.rs").unwrap_or_default();
+    let repo = std::env::var("VERIF_REPO").unwrap_or_else(|_| "/repo".to_string());
+    let src = std::fs::read_to_string(format!("{repo}/src/response.rs")).unwrap_or_default();
     let mut v = vec![];
     for line in src.lines() {
         let l = line.trim_start();
